@@ -17,6 +17,9 @@ CHECKS = {
  'C04': dict(cat='exploration', sec='4/C04', tech='runtime monitoring: address-set (aliasing) monitor, source snapshot, mutation probes, Go race detector on concurrent calls of emitted code',
    text='Per executed conversion the memory reachable from source and result must be disjoint (except identical-type positions under skipCopySameType), the source unchanged, mutation of one side invisible on the other; concurrent calls on a shared source run under the race detector.',
    note='race detector judges executed interleavings only; address arithmetic via reflect/unsafe'),
+ 'C13': dict(cat='exploration', sec='4/C13', tech='runtime monitoring: one watched child process of the real CLI per fuzzed input (type grammar, directive grammar+mutation, argv); exit-status/stderr/panic-dump/hang monitor',
+   text='Thousands of generated inputs over the exotic part of the Go type grammar, mutated directives at every directive position and random argument vectors are each run in their own CLI process under a watchdog; exit status must be 0 or 1, no Go panic dump, failures carry a diagnostic naming the declaration.',
+   note='hang = no termination within 60 s (300x normal); non-compiling generated inputs are dropped before goverter sees them'),
  'C18': dict(cat='exploration', sec='4/C18', tech='runtime monitoring: AST monitor over every file emitted by real CLI runs (import whitelist from the input IR, declaration kinds)',
    text='Every emitted file of the corpus is parsed: no reflect/unsafe, imports only from the packages the case owns (plus fmt / wrapErrorsUsing package when configured), only converter struct, funcs and init at top level.',
    note='go/parser; allowed import set known from the generator IR'),
